@@ -1127,7 +1127,11 @@ class Function(Ring):
         return Function.pushforward(algopy.sign, [self])
 
     def sum(self, axis=None, dtype=None, out=None):
-        return Function.pushforward(algopy.sum, [self, axis, dtype, out])
+        if out is not None:
+            return Function.pushforward(algopy.sum, [self, axis, dtype, out])
+        # axis and dtype are recorded as keyword arguments s.t. the pullback
+        # pb_sum(ybar, x, y, axis=..., dtype=..., out=[xbar]) receives them by name
+        return Function.pushforward(algopy.sum, [self], Fkwargs={'axis': axis, 'dtype': dtype})
 
     def prod(self):
         return Function.pushforward(algopy.prod, [self])
